@@ -50,7 +50,7 @@ enum SessionEnd {
     Violation((String, String)),
 }
 
-pub fn run_faulted(world: &mut World, cfg0: &TowerCfg, base: &Path, tag: &str, ops: &[Op], base_snaps: &[Snap], fault: &Fault, point_name: &str, salt: u64) -> FaultRun {
+pub fn run_faulted(world: &mut World, cfg0: &TowerCfg, base: &Path, tag: &str, ops: &[Op], base_snaps: &[Snap], fault: &Fault, mine_down: bool, point_name: &str, salt: u64) -> FaultRun {
     let datadir = base.join(format!("teosd-f-{tag}"));
     let _ = std::fs::remove_dir_all(&datadir);
     std::fs::create_dir_all(&datadir).unwrap();
@@ -67,6 +67,8 @@ pub fn run_faulted(world: &mut World, cfg0: &TowerCfg, base: &Path, tag: &str, o
     let mut redo_after_crash = false;
     let mut shrinking_update_in_flight = false;
     let mut tower_id = None;
+    // operations already applied to the chain while teosd was down (see e1c::Fault::CrashAtMineDown)
+    let mut applied_while_down: std::collections::BTreeSet<usize> = Default::default();
     loop {
         let fault_here = armed
             && match fault {
@@ -100,6 +102,10 @@ pub fn run_faulted(world: &mut World, cfg0: &TowerCfg, base: &Path, tag: &str, o
                 }
             }
             while i < ops.len() {
+                if applied_while_down.contains(&i) {
+                    i += 1;
+                    continue;
+                }
                 if let Op::Restart = ops[i] {
                     i += 1;
                     return SessionEnd::RestartOp;
@@ -153,6 +159,33 @@ pub fn run_faulted(world: &mut World, cfg0: &TowerCfg, base: &Path, tag: &str, o
                 fr.crashed_in = Some(short_op(&ops[i]));
                 compare_from = Some(compare_from.unwrap_or(i).min(i));
                 redo_after_crash = true;
+                if let (true, Op::Poll) = (mine_down, &ops[i]) {
+                    let mut j = i + 1;
+                    while j < ops.len() && matches!(ops[j], Op::Mine { .. }) {
+                        j += 1;
+                    }
+                    let causal = (i + 1..j).all(|q| {
+                        let blocks: &Vec<Vec<crate::world::TxRef>> = match &ops[q] {
+                            Op::Mine { blocks } => blocks,
+                            _ => return true,
+                        };
+                        let st = lock(&world.node.state);
+                        blocks.iter().flatten().all(|t| match t {
+                            crate::world::TxRef::Penalty(_) => st.mempool.contains_key(&world.resolve(t, salt).compute_txid()),
+                            _ => true,
+                        })
+                    });
+                    if causal && j > i + 1 && j < ops.len() && matches!(ops[j], Op::Poll) {
+                        for q in i + 1..j {
+                            if let Op::Mine { blocks } = &ops[q] {
+                                world.mine(blocks, salt);
+                            }
+                            applied_while_down.insert(q);
+                        }
+                        compare_from = Some(j);
+                        fr.crashed_in = Some("Poll+blocks-mined-while-down".into());
+                    }
+                }
                 if let Op::Add { signer: Signer::User(u), ver, good: true, .. } = &ops[i] {
                     let id = world.users[*u].1.serialize().to_vec();
                     *allowance.entry(id).or_insert(0) += world.versions[*ver].cost();
@@ -182,6 +215,27 @@ pub fn run_faulted(world: &mut World, cfg0: &TowerCfg, base: &Path, tag: &str, o
                 SessionEnd::Violation(mut v) => {
                     if v.0 == "C03:slots-granted" && shrinking_update_in_flight {
                         v.0 = "C03:slots-granted:shrinking-update-in-flight".into();
+                    }
+                    if v.0 == "C03:response-lost" && !applied_while_down.is_empty() {
+                        // same classification as in e1c: breach answered, penalty confirmed while the tower was down, the
+                        // re-processed breach got 'already in chain' and no tracker was created (known finding)
+                        if let (Ok(got), Some(did)) = (Snap::read(&cfg.db_path), v.1.split('#').nth(1).and_then(|x| x.split_whitespace().next()).and_then(|x| x.parse::<usize>().ok())) {
+                            let basesnap = &base_snaps[did];
+                            let missing: Vec<&crate::snap::TrackerRow> = basesnap.trackers.iter().filter(|(u, _)| got.appts.contains_key(*u) && !got.trackers.contains_key(*u)).map(|(_, t)| t).collect();
+                            let evs = world.log.since(0);
+                            let all = !missing.is_empty()
+                                && missing.iter().all(|t| match bitcoin::consensus::deserialize::<bitcoin::Transaction>(&t.penalty_tx).map(|x| x.compute_txid()) {
+                                    Ok(txid) => {
+                                        lock(&world.chain).confirmed_height(&txid, usize::MAX).is_some()
+                                            && evs.iter().any(|e| matches!(e, crate::events::Ev::Send { txid: x, verdict: crate::events::Verdict::Code(-27) } if *x == txid))
+                                            && evs.iter().any(|e| matches!(e, crate::events::Ev::Send { txid: x, verdict: crate::events::Verdict::Accepted | crate::events::Verdict::AlreadyInMempool } if *x == txid))
+                                    }
+                                    Err(_) => false,
+                                });
+                            if all {
+                                v.0 = "C03:response-untracked:penalty-confirmed-while-tower-down".into();
+                            }
+                        }
                     }
                     v.1 = format!("{} [real teosd; fault {fault:?} at {point_name}; in flight: {:?}]", v.1, fr.crashed_in);
                     fr.violation = Some(v);
@@ -220,7 +274,7 @@ fn make_case(seed: u64, id: u64, dir: &PathBuf) -> Case {
     }
 }
 
-pub fn run(seed: u64, shard: u64, nshards: u64, cases: u64, max_faults: usize, parallel: usize, only: Option<(u64, Fault)>, rep: &mut Report) {
+pub fn run(seed: u64, shard: u64, nshards: u64, cases: u64, max_faults: usize, parallel: usize, only: Option<(u64, Fault)>, only_mine_down: bool, rep: &mut Report) {
     let dir = PathBuf::from(format!("/dev/shm/tv-e3c-{}", std::process::id()));
     std::fs::create_dir_all(&dir).unwrap();
     let ids: Vec<u64> = match &only {
@@ -261,6 +315,7 @@ pub fn run(seed: u64, shard: u64, nshards: u64, cases: u64, max_faults: usize, p
         }
         // ---- fault plan
         let mut faults: Vec<(Fault, String)> = Vec::new();
+        let mut mine_down_from = usize::MAX;
         match &only {
             Some((_, f)) => faults.push((f.clone(), "replay".into())),
             None => {
@@ -290,6 +345,11 @@ pub fn run(seed: u64, shard: u64, nshards: u64, cases: u64, max_faults: usize, p
                 };
                 faults.extend(pick(all, max_faults * 2 / 3));
                 faults.extend(pick(kills, budget_kills.max(max_faults / 3)));
+                // the same faults once more, with the history's next blocks mined while teosd is down (takes effect only
+                // for faults that land in a poll followed by mining and another poll)
+                mine_down_from = faults.len();
+                let again: Vec<(Fault, String)> = pick(faults.clone(), max_faults / 3);
+                faults.extend(again);
             }
         }
         r.count("e3c_faults_planned", faults.len() as u64);
@@ -308,7 +368,7 @@ pub fn run(seed: u64, shard: u64, nshards: u64, cases: u64, max_faults: usize, p
                     let fr = loop {
                         attempt += 1;
                         let mut world = world0.fork();
-                        let fr = run_faulted(&mut world, &cfg, &dir, &format!("{id}-{q}"), &case.ops, &case.snaps, &faults[q].0, &faults[q].1, case.salt);
+                        let fr = run_faulted(&mut world, &cfg, &dir, &format!("{id}-{q}"), &case.ops, &case.snaps, &faults[q].0, q >= mine_down_from || only_mine_down, &faults[q].1, case.salt);
                         if attempt >= 3 || !fr.inconclusive.as_deref().map_or(false, |w| w.contains("listening port")) {
                             break fr;
                         }
@@ -338,7 +398,7 @@ pub fn run(seed: u64, shard: u64, nshards: u64, cases: u64, max_faults: usize, p
                 r.count("e3c_faults_not_reached", 1);
             }
             if let Some((sig, detail)) = fr.violation {
-                let replay = json!({"engine":"e3c","seed":seed,"case":id,
+                let replay = json!({"engine":"e3c","seed":seed,"case":id,"mine_down": q >= mine_down_from || only_mine_down,
                     "fault": match f { Fault::Abort{process,k} => json!({"abort":[process,k]}), Fault::KillAtRequest{process,j} => json!({"kill_at_request":[process,j]}) },
                     "ops": case.ops.iter().map(|o| o.to_json()).collect::<Vec<_>>()});
                 r.violation(sig, format!("e3c history {id}: {detail}"), replay);
